@@ -7,6 +7,7 @@ CONSTANTS
   ClassKinds <- KindsTabQ
   ClassX <- XTabQ
   ClassT <- TTabQ
+  ClassM <- MTabQ
   LowerOf <- LowerTab
   QNums <- QNumsOne
   QWords <- QWordsTwo
@@ -21,7 +22,7 @@ CONSTANTS
   CardLimit = 2
   NeSkipsConstBlock = FALSE
   LowerOnInsert = TRUE
-INVARIANTS RoundTrip LayoutIrrelevant PruneSound TypeOK
+INVARIANTS RoundTrip LayoutIrrelevant StatsIrrelevant PruneSound TypeOK
 PROPERTIES OnlyIngestGrows FlushedStays
 CHECK_DEADLOCK FALSE
 VIEW View
